@@ -77,6 +77,55 @@ def check_type(name, T, values):
     return out
 
 
+# ----------------------------------------------------------------------------- name coincidences
+# "irrespective of name coincidences: ... equal class names in different modules, or one type reachable through several paths":
+# two synthesised modules declare equally named classes with equally named fields of different types, and each root reaches
+# its member type through two paths (so the type graph cuts one of them with a reference); a third pair lives in two function
+# bodies of one module.  Every root is checked twice, after all the others have been built.
+_COINCIDE_SRC = {
+    "c05_twin_shop": "import dataclasses\n@dataclasses.dataclass\nclass Item:\n    sku: int\n    qty: int\n"
+                     "@dataclasses.dataclass\nclass Order:\n    items: list[Item]\n    by_tag: dict[str, list[Item]]\n",
+    "c05_twin_warehouse": "import dataclasses\n@dataclasses.dataclass\nclass Item:\n    sku: str\n    qty: float\n"
+                          "@dataclasses.dataclass\nclass Order:\n    items: list[Item]\n    by_tag: dict[str, list[Item]]\n",
+}
+
+
+def _local_pair(leaf_t):
+    # (built with make_dataclass: this module postpones its own annotations)
+    Leaf = dataclasses.make_dataclass("Leaf", [("v", leaf_t)])
+    Tree = dataclasses.make_dataclass("Tree", [("first", Leaf), ("rest", list[Leaf]), ("index", dict[str, Leaf])])
+    return Leaf, Tree
+
+
+def coincidence_roots():
+    import sys
+    import types as _types
+    out = []
+    for name, src in _COINCIDE_SRC.items():
+        m = sys.modules.get(name)
+        if m is None:
+            m = _types.ModuleType(name)
+            sys.modules[name] = m
+            exec(compile(src, f"<{name}>", "exec"), m.__dict__)
+        mk = (lambda I: [I(1, 2)]) if name.endswith("shop") else (lambda I: [I("1", 2.0)])
+        out.append((f"{name}.Order", m.Order, [m.Order(items=mk(m.Item), by_tag={"new": mk(m.Item)})]))
+    for t, v in ((int, 3), (str, "3")):
+        Leaf, Tree = _local_pair(t)
+        out.append((f"<locals>.Tree[{t.__name__}]", Tree, [Tree(Leaf(v), [Leaf(v)], {"k": Leaf(v)})]))
+    return out
+
+
+def coincidence_search():
+    fails, n = [], 0
+    roots = coincidence_roots()
+    for rnd in (1, 2):
+        for name, T, values in roots:
+            n += len(values)
+            for f in check_type(name, T, values):
+                fails.append({"type": name, "failure": f"round {rnd}: {f}", "stage": "name-coincidence"})
+    return fails, n
+
+
 def search(stop_at=1):
     fails, n = [], 0
     clear_typelib_caches()
@@ -86,10 +135,17 @@ def search(stop_at=1):
             fails.append({"type": name, "failure": f})
             if stop_at and len(fails) >= stop_at:
                 return fails, n, n
+    cf, cn = coincidence_search()
+    n += cn
+    fails.extend(cf[:stop_at] if stop_at else cf)
     return fails, n, n
 
 
 def run_recorded(case):
+    if case.get("stage") == "name-coincidence":
+        clear_typelib_caches()
+        cf, _ = coincidence_search()
+        return cf[0]["failure"] if cf else None
     for name, T, values in tp.pool():
         if name == case["type"]:
             r = check_type(name, T, values)
